@@ -211,6 +211,14 @@ class CView:
         return name in self._d
 
 
+class Hinted:
+    """a goal with intermediate lemmas: each lemma is itself an obligation (proved from the path
+    condition and the earlier lemmas), then the goal is proved from all of them"""
+
+    def __init__(self, goal, lemmas, defs=()):
+        self.goal, self.lemmas, self.defs = goal, list(lemmas), list(defs)
+
+
 class SumFn:
     def __init__(self, f, body, arity, lo_hint=None):
         self.f = f            # z3 Function(Int lo, Int hi, *params) -> Real
@@ -219,7 +227,7 @@ class SumFn:
 
 
 class Ctx:
-    TOL = 1e-7
+    TOL = 1e-6
 
     def __init__(self, mode='sym', fixed=None, values=None, rng=None):
         assert mode in ('sym', 'bmc', 'conc')
@@ -287,6 +295,13 @@ class Ctx:
         f = z3.Function('%s!%d' % (base, next(self._fresh)), *([INT] * len(shape) + [rng]))
         return Arr(tuple(shape), lambda ix, f=f: f(*[to_int(i) if not is_sym(i) else i for i in ix]), kind)
 
+    def choice(self, name):
+        """value selected by the unit variant being verified (concrete in every mode)"""
+        self.inputs.append(('choice', name, None))
+        if self.mode == 'conc':
+            return self.values[name]
+        return self.fixed[name]
+
     def func(self, name, *sorts):
         """named uninterpreted spec function (e.g. an abstract cross-section table)"""
         if self.mode == 'conc':
@@ -315,8 +330,13 @@ class Ctx:
         return z3.Not(x) if is_sym(x) else (not x)
 
     def Implies(self, a, b):
+        """b may be a zero-argument callable (evaluated only when needed: guards partial specs concretely)"""
         if not is_sym(a):
-            return b if a else True
+            if not a:
+                return True
+            return b() if callable(b) else b
+        if callable(b):
+            b = b()
         if not is_sym(b):
             return True if b else z3.Not(a)
         return z3.Implies(a, b)
@@ -449,21 +469,53 @@ class Ctx:
         return self.uf[name]
 
     def exp(self, x):
-        return math.exp(x) if not is_sym(x) and self.mode == 'conc' else self._uf1('exp')(to_real(x))
+        return math.exp(x) if not is_sym(x) and self.mode == 'conc' else self._uf1('u_exp')(to_real(x))
 
     def ln(self, x):
-        return math.log(x) if not is_sym(x) and self.mode == 'conc' else self._uf1('ln')(to_real(x))
+        return math.log(x) if not is_sym(x) and self.mode == 'conc' else self._uf1('u_ln')(to_real(x))
 
     def log10(self, x):
-        return math.log10(x) if not is_sym(x) and self.mode == 'conc' else self._uf1('log10')(to_real(x))
+        return math.log10(x) if not is_sym(x) and self.mode == 'conc' else self._uf1('u_log10')(to_real(x))
 
     def sqrt(self, x):
-        return math.sqrt(x) if not is_sym(x) and self.mode == 'conc' else self._uf1('sqrt')(to_real(x))
+        return math.sqrt(x) if not is_sym(x) and self.mode == 'conc' else self._uf1('u_sqrt')(to_real(x))
 
     def pow10(self, x):
-        return 10.0 ** x if not is_sym(x) and self.mode == 'conc' else self._uf1('pow10')(to_real(x))
+        return 10.0 ** x if not is_sym(x) and self.mode == 'conc' else self._uf1('u_pow10')(to_real(x))
 
     # ---------------------------------------------------------------- arrays in contracts
+    def ForallH(self, lo, hi, f):
+        """forall lo <= i < hi with per-element lemmas: f(i) -> goal or hint(goal, *lemmas).  In 'sym' mode the
+        index is ONE fresh constant shared by the lemma chain (proving for an arbitrary constant proves the
+        universal), so every lemma obligation is ground."""
+        clo, chi = conc_int(lo), conc_int(hi)
+        if self.mode == 'conc' or (clo is not None and chi is not None and chi - clo <= 64):
+            outs = [f(k) for k in range(clo, chi)]
+            return self.And(*[(o.goal if isinstance(o, Hinted) else o) for o in outs])
+        if getattr(self, 'assuming', False):
+            # a callee's postcondition assumed at a call site is the real universal statement
+            return self.Forall(lo, hi, lambda k: (lambda o: o.goal if isinstance(o, Hinted) else o)(f(k)))
+        i = self.fresh('i')
+        rng = z3.And(to_int(lo) <= i, i < to_int(hi))
+        o = f(i)
+        if isinstance(o, Hinted):
+            return Hinted(self.Implies(rng, o.goal), [self.Implies(rng, l) for l in o.lemmas], o.defs)
+        return self.Implies(rng, o)
+
+    def hint(self, goal, *lemmas, defs=()):
+        if self.mode == 'conc':
+            return goal
+        return Hinted(goal, lemmas, defs)
+
+    def define(self, name, term):
+        """definitional extension for lemma chains: a fresh constant equal to `term` (keeps compound
+        non-linear subterms atomic for the solver).  Returns (constant, defining equation); the equation is
+        passed to hint(..., defs=[...]) and is sound because the constant occurs nowhere else."""
+        if self.mode == 'conc' or not is_sym(term):
+            return term, True
+        k = self.fresh(name, term.sort())
+        return k, (k == term)
+
     def Len(self, a):
         return a.shape[0]
 
